@@ -7,6 +7,7 @@ import RevalModel.Lemmas.NoneType
 import RevalModel.Lemmas.Calendar
 import RevalModel.Lemmas.DecExact
 import RevalModel.Lemmas.Strings
+import RevalModel.Lemmas.Equality
 
 namespace Reval.C02
 
@@ -220,6 +221,18 @@ theorem int_of_string_exact (o : Oracle) (s : Str) :
     | none => rfl
     | some n => rw [hp] at h; exact absurd rfl (h n)
 
+/-- `==` between values without a Float inside is reflexive and symmetric (a Float compares by IEEE: NaN ≠ NaN, so a value
+    holding one need not equal itself); `!=` is its negation by `eq_composes` -/
+theorem eq_reflexive_symmetric_without_floats (a b : Value) (ha : a.noFloat = true) :
+    Value.peq a a = true ∧ Value.peq a b = Value.peq b a :=
+  ⟨peq_refl a ha, peq_symm a b ha⟩
+
+/-- on strings, integers, booleans, instants, spans, None and lists / maps built from them, `==` is identity: true exactly
+    when the two operands are the same value (same length, same keys, same order, same items) -/
+theorem eq_is_identity_on_exact_values (a b : Value) (ha : a.exact = true) (hb : b.exact = true) :
+    Value.peq a b = true ↔ a = b :=
+  peq_iff_eq a b ha hb
+
 /-! non-vacuity -/
 example : applyBin Oracle.empty .sub (.int 7) (.int 9) = .ok (.int (-2)) := by decide
 example : applyBin Oracle.empty .rem (.int (-7)) (.int 2) = .ok (.int (-1)) := by decide
@@ -232,5 +245,7 @@ example : applyUn Oracle.empty .month (.dateTime (951782400 * Time.nsPerSec)) = 
 example : Str.trim "\t a b  ".toList = "a b".toList := by decide
 example : Str.isInfix "".toList "abc".toList = true ∧ Str.isInfix "bc".toList "abc".toList = true ∧ Str.isInfix "ac".toList "abc".toList = false := by decide
 example : applyUn Oracle.empty .toInt (.str "-12".toList) = .ok (.int (-12)) ∧ applyUn Oracle.empty .toInt (.str " 12".toList) = .err (.invalidCast (.str " 12".toList)) := by decide
+example : (Value.vec [.int 1, .map [("a".toList, .str "x".toList)], .none]).exact = true := by decide
+example : Value.peq (.vec [.dec ⟨false, 10, 1⟩]) (.vec [.dec ⟨false, 100, 2⟩]) = true := by decide   -- d1.0 == d1.00: numeric, not identity
 
 end Reval.C02
